@@ -57,7 +57,8 @@ def _diff_key(sub, d, tree):
 
 
 def _map_lookup_problems(tree, obj, pv, out, top=True):
-    """'maps come back as ordered maps': every decoded key must find its own value again"""
+    """'maps come back as ordered maps': every decoded key must find its own value again (that is also what
+    Mapping.items()/values() and re-serialisation of the decoded map rely on)"""
     if obj is None or len(out) > 2:
         return
     t = tree["t"]
@@ -67,30 +68,34 @@ def _map_lookup_problems(tree, obj, pv, out, top=True):
         return
     if t == "map":
         pairs = list(getattr(obj, "_items", []))
-        if V.contains(tree["k"], "set"):
-            # a set inside the key is indexed under the sender's element order; looking it up by the decoded
-            # (re-sorted) key is not promised
-            pairs_for_lookup = []
+        has_coll = any(V.contains(tree["k"], c) for c in ("list", "set", "map"))
+        if top and pv < 3 and has_coll:
+            feat = ["collection-key", "top-level-pv<3"]
+        elif V.contains(tree["k"], "set"):
+            feat = ["set-in-key", "v3-format"]
         else:
-            pairs_for_lookup = pairs
-        kt = V.core(tree["k"])["t"]
-        kkind = "scalar-key" if kt in V.SCALARS else ("collection-key" if any(V.contains(tree["k"], c) for c in ("list", "set", "map")) else "composite-key")
-        for k, v in pairs_for_lookup:
+            feat = ["scalar-key" if V.core(tree["k"])["t"] in V.SCALARS else ("collection-key" if has_coll else "composite-key"),
+                    "top-level-pv<3" if (top and pv < 3) else "v3-format"]
+        for k, v in pairs:
             try:
                 found = obj[k]
                 ok = found is v or found == v or (found != found and v != v)
             except KeyError:
                 ok = False
             if not ok:
-                out.append((["C01.map.lookup", kkind, "top-level-pv<3" if (top and pv < 3) else "v3-format"],
+                out.append((["C01.map.lookup"] + feat,
                             "decoded map<%s, ...> cannot look up its own key %r" % (V.cql_name(tree["k"]), k)))
                 break
         for k, v in pairs:
             _map_lookup_problems(tree["k"], k, pv, out, False)
             _map_lookup_problems(tree["v"], v, pv, out, False)
-    elif t in ("list", "set", "vector"):
+    elif t in ("list", "set"):
         for x in obj:
             _map_lookup_problems(tree["of"], x, pv, out, False)
+    elif t == "vector":
+        # VectorType hands the protocol version to its element type unchanged
+        for x in obj:
+            _map_lookup_problems(tree["of"], x, pv, out, top)
     else:
         subs = tree["of"] if t == "tuple" else [f[1] for f in tree["fields"]]
         for sub, x in zip(subs, obj):
